@@ -223,6 +223,11 @@ func c11Inputs(r *rand.Rand, g *gen.G, i int) string {
 		"SELECT a, b, c, d, e, f, g FROM t " + strings.Repeat("-- c\n", 1500) + "WHERE a = 1",
 		strings.Repeat("/* lead */\n", 1500) + "SELECT 1",
 	}
+	// scripts whose statement terminators fall on every residue of the parser's polling interval: a poll that lands on
+	// the advance over a ';' must not end the call early with the statements collected so far
+	for pad := 116; pad <= 133; pad++ {
+		fixed = append(fixed, "SELECT "+strings.Repeat("a, ", pad)+"b FROM t1; SELECT c FROM u; SELECT d FROM v; SELECT e FROM w WHERE e = 1")
+	}
 	if i < len(fixed) {
 		return fixed[i]
 	}
